@@ -12,5 +12,5 @@ Extraction "../ocaml/c01/model.ml"
   enc_spec enc_cell_spec conforms_ok enc_seq_cells_spec deser_listlike_cells cell_okb rust_native domain_excl
   uvint_encode uvint_decode vint_encode vint_decode zigzag_encode zigzag_decode
   spec_uvint spec_vint spec_zigzag spec_uvint_len uvint_nbytes type_size
-  typed_write typed_read typed_check typed_read_cell embed unembed of_cell min_twos
+  typed_write typed_read typed_check typed_read_cell embed unembed of_cell min_twos leaf_embed read_cql_bytes
   ser_cell_fixed ser_vector_cells_fixed.
